@@ -178,3 +178,226 @@ func verifC10SetInt(max int) {
 
 func VerifC10SetInt2() { verifC10SetInt(2) }
 func VerifC10SetInt3() { verifC10SetInt(3) }
+
+// ---- maps ----
+
+type vKV struct{ k, v string }
+
+func vStrMap(n int, nilWhenEmpty bool) (map[string]string, []vKV) {
+	if n == 0 {
+		if nilWhenEmpty {
+			return nil, nil
+		}
+		return map[string]string{}, nil
+	}
+	kv := make([]vKV, n)
+	for i := range kv {
+		kv[i] = vKV{rt.String(), rt.String()}
+	}
+	for i := 0; i < n; i++ {
+		for j := i + 1; j < n; j++ {
+			rt.Assume(kv[i].k != kv[j].k)
+		}
+	}
+	m := make(map[string]string, n)
+	for _, e := range kv {
+		m[e.k] = e.v
+	}
+	return m, kv
+}
+
+func vLookup(kv []vKV, k string) (string, bool) {
+	for _, e := range kv {
+		if e.k == k {
+			return e.v, true
+		}
+	}
+	return "", false
+}
+
+func vMapEqList(m map[string]string, kv []vKV) bool {
+	if len(m) != len(kv) {
+		return false
+	}
+	for _, e := range kv {
+		v, ok := m[e.k]
+		if !ok || v != e.v {
+			return false
+		}
+	}
+	return true
+}
+
+// vRefMapDiff is the update2 difference of two maps (reference, from ovsdb-server(7)).
+func vRefMapDiff(a, b []vKV) []vKV {
+	var d []vKV
+	for _, e := range a {
+		if _, ok := vLookup(b, e.k); !ok {
+			d = append(d, e)
+		}
+	}
+	for _, e := range b {
+		if av, ok := vLookup(a, e.k); !ok || av != e.v {
+			d = append(d, e)
+		}
+	}
+	return d
+}
+
+// vRefMapApply applies an update2 map difference (reference).
+func vRefMapApply(a, d []vKV) []vKV {
+	var r []vKV
+	for _, e := range a {
+		if dv, ok := vLookup(d, e.k); ok {
+			if dv == e.v {
+				continue // identical pair: removed
+			}
+			r = append(r, vKV{e.k, dv}) // replaced
+		} else {
+			r = append(r, e)
+		}
+	}
+	for _, e := range d {
+		if _, ok := vLookup(a, e.k); !ok {
+			r = append(r, e)
+		}
+	}
+	return r
+}
+
+func verifC10MapString(max int) {
+	na, nb := rt.Choose(max+1), rt.Choose(max+1)
+	a, akv := vStrMap(na, rt.Choose(2) == 0)
+	b, bkv := vStrMap(nb, rt.Choose(2) == 0)
+	d, changed := difference(a, b) // in place on a
+	rt.Reach("post-diff")
+	refD := vRefMapDiff(akv, bkv)
+	dm, _ := d.(map[string]string)
+	rt.Assert(vMapEqList(dm, refD), "C10 map: difference equals the update2 map difference")
+	rt.Assert(changed == (len(refD) > 0), "C10 map: changed flag iff maps differ")
+	rt.Assert(vMapEqList(b, bkv), "C10 map: b not altered by difference")
+	// apply to a fresh copy of a
+	a2 := make(map[string]string, len(akv))
+	for _, e := range akv {
+		a2[e.k] = e.v
+	}
+	var a2i interface{} = a2
+	if na == 0 {
+		a2i = map[string]string(nil)
+	}
+	r, _ := applyDifference(a2i, d)
+	rm, _ := r.(map[string]string)
+	rt.Assert(vMapEqList(rm, bkv), "C10 map: apply(a, diff(a,b)) == b")
+}
+
+func VerifC10MapString1() { verifC10MapString(1) }
+func VerifC10MapString2() { verifC10MapString(2) }
+
+// VerifC10MapPeer: applying an arbitrary peer-supplied difference follows the update2 rules.
+func verifC10MapPeer(max int) {
+	na, nd := rt.Choose(max+1), 1+rt.Choose(max)
+	a, akv := vStrMap(na, rt.Choose(2) == 0)
+	d, dkv := vStrMap(nd, false)
+	var ai interface{} = a
+	r, changed := applyDifference(ai, d)
+	rt.Reach("post-apply")
+	ref := vRefMapApply(akv, dkv)
+	rm, _ := r.(map[string]string)
+	rt.Assert(vMapEqList(rm, ref), "C10 map peer: add / replace / remove-identical rule")
+	rt.Assert(changed, "C10 map peer: a non-empty difference always changes a map")
+	rt.Assert(vMapEqList(d, dkv), "C10 map peer: the difference itself is not altered")
+}
+
+func VerifC10MapPeer2() { verifC10MapPeer(2) }
+
+// VerifC10SetPeer: applying an arbitrary peer-supplied set difference toggles membership.
+func VerifC10SetPeer2() {
+	na, nd := rt.Choose(3), 1+rt.Choose(2)
+	a := vStrSet(na, rt.Choose(2) == 0)
+	d := vStrSet(nd, false)
+	a0, d0 := vCloneStrs(a), vCloneStrs(d)
+	r, changed := applyDifference(a, d)
+	rt.Reach("post-apply")
+	rs, _ := r.([]string)
+	for _, x := range a0 {
+		rt.Assert(vStrIn(x, rs) == !vStrIn(x, d0), "C10 set peer: element of a stays iff not toggled")
+	}
+	for _, x := range d0 {
+		rt.Assert(vStrIn(x, rs) == !vStrIn(x, a0), "C10 set peer: element of d is added iff absent")
+	}
+	for _, x := range rs {
+		rt.Assert(vStrIn(x, a0) || vStrIn(x, d0), "C10 set peer: nothing else appears")
+	}
+	rt.Assert(vStrNoDup(rs), "C10 set peer: result has no duplicates")
+	rt.Assert(changed, "C10 set peer: a non-empty difference always changes a set")
+	rt.Assert(vStrSetEq(d, d0), "C10 set peer: the difference itself is not altered")
+}
+
+// ---- atoms and optionals ----
+
+func VerifC10Atoms() {
+	switch rt.Choose(6) {
+	case 0:
+		a, b := rt.Int(), rt.Int()
+		d, changed := difference(a, b)
+		rt.Reach("post")
+		rt.Assert(changed == (a != b), "C10 int: changed iff different")
+		r, _ := applyDifference(a, d)
+		rt.Assert(r.(int) == b, "C10 int: apply(a,diff) == b")
+	case 1:
+		a, b := rt.String(), rt.String()
+		d, changed := difference(a, b)
+		rt.Reach("post")
+		rt.Assert(changed == (a != b), "C10 string: changed iff different")
+		r, _ := applyDifference(a, d)
+		rt.Assert(r.(string) == b, "C10 string: apply(a,diff) == b")
+	case 2:
+		a, b := rt.Float64(), rt.Float64()
+		d, changed := difference(a, b)
+		rt.Reach("post")
+		rt.Assert(changed == (a != b), "C10 real: changed iff different")
+		r, _ := applyDifference(a, d)
+		rt.Assert(r.(float64) == b, "C10 real: apply(a,diff) == b")
+	case 3:
+		a, b := rt.Bool(), rt.Bool()
+		d, changed := difference(a, b)
+		rt.Reach("post")
+		rt.Assert(changed == (a != b), "C10 bool: changed iff different")
+		r, _ := applyDifference(a, d)
+		rt.Assert(r.(bool) == b, "C10 bool: apply(a,diff) == b")
+	case 4:
+		var a, b *string
+		if rt.Choose(2) == 1 {
+			s := rt.String()
+			a = &s
+		}
+		if rt.Choose(2) == 1 {
+			s := rt.String()
+			b = &s
+		}
+		d, changed := difference(a, b)
+		rt.Reach("post")
+		same := (a == nil && b == nil) || (a != nil && b != nil && *a == *b)
+		rt.Assert(changed == !same, "C10 optional string: changed iff different")
+		r, _ := applyDifference(a, d)
+		rp, _ := r.(*string)
+		rt.Assert((rp == nil && b == nil) || (rp != nil && b != nil && *rp == *b), "C10 optional string: apply(a,diff) == b")
+	case 5:
+		var a, b *int
+		if rt.Choose(2) == 1 {
+			s := rt.Int()
+			a = &s
+		}
+		if rt.Choose(2) == 1 {
+			s := rt.Int()
+			b = &s
+		}
+		d, changed := difference(a, b)
+		rt.Reach("post")
+		same := (a == nil && b == nil) || (a != nil && b != nil && *a == *b)
+		rt.Assert(changed == !same, "C10 optional int: changed iff different")
+		r, _ := applyDifference(a, d)
+		rp, _ := r.(*int)
+		rt.Assert((rp == nil && b == nil) || (rp != nil && b != nil && *rp == *b), "C10 optional int: apply(a,diff) == b")
+	}
+}
